@@ -36,8 +36,10 @@ type GOp struct {
 	RetryFinal bool `json:"retry_final,omitempty"`
 	// Upload2: two resumable sessions A = (Name, Data) and B = (Name2, Data2), started one after the other and
 	// continued chunk by chunk in alternation; A completes first
-	Name2 string `json:"name2,omitempty"`
-	Data2 []byte `json:"data2,omitempty"`
+	// AcceptGzip: a media GET sent with "Accept-Encoding: gzip"
+	AcceptGzip bool   `json:"accept_gzip,omitempty"`
+	Name2      string `json:"name2,omitempty"`
+	Data2      []byte `json:"data2,omitempty"`
 	// a step run between the initiation of a resumable upload and its first chunk
 	Between   *GOp            `json:"between,omitempty"`
 	PatchBody json.RawMessage `json:"patch,omitempty"`
@@ -220,6 +222,12 @@ func (w *gcsWorld) resolve(b, n string, conds map[string]string) map[string]stri
 			out[k] = "0"
 		case "bad":
 			out[k] = "abc"
+		case "badesc": // sent unescaped (see gcs.condQuery): the current number followed by a broken percent escape
+			out[k] = "RAW:" + strconv.FormatInt(c, 10) + "%zz"
+		case "badesc2":
+			out[k] = "RAW:0%2"
+		case "badsemi":
+			out[k] = "RAW:" + strconv.FormatInt(c, 10) + ";x=1"
 		default:
 			out[k] = v
 		}
@@ -312,7 +320,11 @@ func (w *gcsWorld) step(o *GOp) (string, string) {
 	case "Upload2":
 		return w.stepUpload2(o)
 	case "Get":
-		r := w.do(gcs.ReqGetMedia(o.Form, o.Bucket, o.Name))
+		rq := gcs.ReqGetMedia(o.Form, o.Bucket, o.Name)
+		if o.AcceptGzip {
+			rq.Header = map[string]string{"Accept-Encoding": "gzip"}
+		}
+		r := w.do(rq)
 		if r.Panic != "" {
 			return fail("panic", "panic: %s", r.Panic)
 		}
@@ -329,10 +341,24 @@ func (w *gcsWorld) step(o *GOp) (string, string) {
 		if r.Status != 200 {
 			return fail("status", "status %d, want 200", r.Status)
 		}
-		if string(r.Body) != string(obj.Content) {
-			return fail("content", "body %q, want %q", trunc(r.Body), trunc(obj.Content))
-		}
 		v := mdl.View(o.Bucket, o.Name)
+		wantBody := obj.Content
+		if v.ContentEncoding == "gzip" {
+			// decompressive transcoding: stored gzip bytes are served as they are (marked Content-Encoding: gzip) to a
+			// client that accepts gzip, and decompressed to one that does not
+			if o.AcceptGzip {
+				if ce := r.Header.Get("Content-Encoding"); ce != "gzip" {
+					return fail("header", "object stored with contentEncoding=gzip, client accepts gzip: Content-Encoding header %q, want gzip", ce)
+				}
+			} else if plain, err := gcs.Gunzip(obj.Content); err == nil {
+				wantBody = plain
+			} else {
+				return "", "" // stored bytes are not gzip data: what the server should send is not specified
+			}
+		}
+		if string(r.Body) != string(wantBody) {
+			return fail("content", "body %q, want %q", trunc(r.Body), trunc(wantBody))
+		}
 		if ct := r.Header.Get("Content-Type"); ct != v.ContentType {
 			return fail("header", "Content-Type header %q, want %q", ct, v.ContentType)
 		}
